@@ -234,4 +234,22 @@ CLAIMS = {
         'technique': 'static analysis: thread-role derivation from the call graph, transitive effect (write-set) '
                      'analysis, recognised-synchronisation check (ast only)',
     },
+    'C09': {
+        'text': "TIFA's flow core (store_variable, load_variable, merge_paths, combine_states, match_rso, "
+                "search_parents, find_path_parent, find_variable_scope, NewPath, _finish_scope) and its If/While/For "
+                "visitors are executed abstractly - a whitelist interpreter over their ASTs, nothing imported or run "
+                "- on every program of a flow mini-language (assign/read of a variable, nested if/else, loops) up to "
+                "a size bound: quick 1450 programs, thorough 24000 (<= 4 atoms, depth 2, two variables, loops "
+                "running 0/1/2 times). The reported issues are compared with an oracle that enumerates the program's "
+                "execution paths: exact Initialization / Possible Initialization / none per read and unused-variable "
+                "verdicts for branch programs, no missed uninitialised read with loops. In addition the three-valued "
+                "join table, the issue dispatch, the path discipline of the three visitors (sibling rule) and "
+                "merge_paths covering both sides are checked directly.",
+        'note': _NOTE + "The abstract execution was cross-checked against the real TIFA on the deviating programs. "
+                        "Known findings: visit_For opens no path (missed reads after for loops), unused not "
+                        "reported when the variable is only read on a branch that never assigns it. Not decided: "
+                        "programs beyond the size bound, line numbers.",
+        'technique': 'static analysis: exhaustive small-program table by abstract interpretation of the TIFA flow '
+                     'core vs a path-enumeration oracle; sibling agreement of visitors (ast only)',
+    },
 }
